@@ -134,6 +134,15 @@ func (x *Exec) evalBin(c *evalCtx, b EBin) (Val, error) {
 	if err != nil {
 		return Val{}, err
 	}
+	// short circuit: the right operand need not be well defined when it is irrelevant
+	switch {
+	case b.Op == "==>" && isLit(l.T, "false"):
+		return boolV(BoolT(true)), nil
+	case b.Op == "&&" && isLit(l.T, "false"):
+		return boolV(BoolT(false)), nil
+	case b.Op == "||" && isLit(l.T, "true"):
+		return boolV(BoolT(true)), nil
+	}
 	r, err := x.evalExpr(c, b.R)
 	if err != nil {
 		return Val{}, err
@@ -233,6 +242,11 @@ func (x *Exec) evalSel(c *evalCtx, s ESel) (Val, error) {
 		return Val{}, fmt.Errorf("selector .%s on untyped value", s.Field)
 	}
 	st := c.state()
+	if base.K == VIface && base.Dyn != nil && base.Payload != nil {
+		pv := *base.Payload
+		pv.GoT = base.Dyn
+		base = pv
+	}
 	if base.K == VStruct {
 		su := base.GoT.Underlying().(*types.Struct)
 		for i := 0; i < su.NumFields(); i++ {
@@ -314,6 +328,7 @@ func (x *Exec) loadAddrPure(st *State, a *Addr) Val {
 		}
 	}
 	v, _ := unflatten(a.T, ts)
+	x.normalizeEntrySlice(st, a, &v)
 	if v.K == VSlice && isOptionSlice(v.GoT) {
 		x.Reg.DeclareFun("optseq", []string{SInt, SInt, SInt}, SInt)
 		v.Abs = &OptAbs{Base: app("optseq", SInt, v.Ref, v.Off, v.Len)}
@@ -511,6 +526,11 @@ func (x *Exec) evalCall(c *evalCtx, call ECall) (Val, error) {
 		return intV(Ite(Le(a[0].T, a[1].T), a[0].T, a[1].T)), nil
 	case "max":
 		return intV(Ite(Ge(a[0].T, a[1].T), a[0].T, a[1].T)), nil
+	case "flag":
+		return boolV(BoolT(c.st.Flags[strings.Trim(a[0].T.S, `"`)])), nil
+	case "negProto":
+		x.Reg.DeclareFun("negProto", []string{SInt}, SStr)
+		return strV(app("negProto", SStr, a[0].T)), nil
 	case "sameDynType":
 		x.declIfaceFns()
 		return boolV(Eq(x.msgTag(a[0]), x.msgTag(a[1]))), nil
@@ -537,7 +557,7 @@ func (x *Exec) evalCall(c *evalCtx, call ECall) (Val, error) {
 		}
 		x.registerElemPrefix(elemPrefix(et), et)
 		inner := arrSort(SInt, cs[0].Sort)
-		return scalar(Select(x.heapCur(st, elemPrefix(et), arrSort(SInt, inner)), a[0].Ref, inner), nil), nil
+		return scalar(x.readRow(st, elemPrefix(et), inner, a[0].Ref), nil), nil
 	case "off":
 		if a[0].K != VSlice {
 			return Val{}, fmt.Errorf("off(slice)")
